@@ -496,6 +496,34 @@ def scp_get_move_final(code: int) -> bool:
     return _sent_ok(assoc.dimse.sent, code, known, cat)
 
 
+from vlib.stubs import scp_f as _S  # noqa: E402  (SCP kernel environment shared with C20-C22)
+
+
+@harness(
+    "C28",
+    timeout=(200, 900),
+    functions=["service_class:QueryRetrieveServiceClass._get_scp", "service_class:QueryRetrieveServiceClass._move_scp"],
+    bounds="a C-GET / C-MOVE (N any int 1..65535) with one sub-operation whose C-STORE response carries status `code`, any "
+           "int in [0, 65535] (solver-symbolic): the shared status tables are not written to (they are module-level state: "
+           "using them must not change what they say - that they agree with code_to_category as they are is tables_agree)",
+    stubs=["SCP kernel environment of vlib/stubs/scp_f.py (recording association / DIMSE / store association, "
+           "service_class.encode stub); every status table is an exact interval copy that counts writes"],
+    outside="other kernels",
+    shards=[{"kernel": k} for k in ("get_qr", "move_qr")],
+)
+def tables_stable_under_use(n: int, code: int) -> bool:
+    """
+    pre: 1 <= n <= 65535
+    pre: 0 <= code <= 65535
+    post: _ == True
+    """
+    script = _S.Script([_S.SK_INT], [0xFF00], [_S.DK_VALID])
+    with _S.scp_env() as log:
+        _S.TABLE_WRITES[0] = 0
+        r = _S.run_kernel(shard("kernel", "get_qr"), 11, 9, script, log, n_sub=n, outcomes=[_S.SUB_SYMBOLIC], codes=[code])
+        return r.escaped is None and _S.TABLE_WRITES[0] == 0
+
+
 @harness(
     "C28",
     timeout=(120, 600),
